@@ -128,10 +128,12 @@ inline bool begin_case(const std::string &desc) {
     if (s.ctx.replay) {
         if (desc != s.ctx.replayCase) return false;
     } else {
-        if ((s.index % (uint64_t)s.ctx.nshards) != (uint64_t)s.ctx.shard) return false;
-        if (s.index <= s.skipUpto) return false;
+        // the deadline test must precede the shard filter: 0x400 is a multiple of the usual shard
+        // count, so behind the filter only shard 0 would ever look at the clock
         if (s.ctx.deadlineS > 0 && (s.index & 0x3ff) == 0 &&
             difftime(time(nullptr), s.start) > s.ctx.deadlineS) { s.sh->deadlineHit = 1; return false; }
+        if ((s.index % (uint64_t)s.ctx.nshards) != (uint64_t)s.ctx.shard) return false;
+        if (s.index <= s.skipUpto) return false;
     }
     s.cur = desc;
     size_t n = desc.size() < sizeof(s.sh->desc) - 1 ? desc.size() : sizeof(s.sh->desc) - 1;
